@@ -104,6 +104,7 @@ def run(tier):
     runner = genlib.Runner()
     reqs, pend = [], []
     ireqs, ipend = [], []
+    treqs, tpend = [], []
     n = 100 if thorough else 28
     with scratch() as base:
         for i in range(n):
@@ -146,6 +147,35 @@ def run(tier):
                         continue
                     ireqs.append(dict(cmd="umlinc", folders=folders, ns=c.NAMESPACE, types=types, names=names))
                     ipend.append((dict(info, cls=c.NAME, types=types), real))
+                    # the two type sets themselves vs Model/UmlTypes
+                    V = sys.modules["kojen.vppclassdiagram"]
+                    try:
+                        with common.quiet():
+                            real_fwd = sorted(c.GetForwardDeclarableNonPrimitiveTypesLinkedToThis())
+                    except Exception as e:      # noqa
+                        oc.corr_failures.append(dict(what="forward-declarable types raised %s: %s" % (type(e).__name__, e), cls=c.NAME, **info))
+                        continue
+                    bases = [i.CLASS_FROM for i in cd.inheritence.values() if i.CLASS_TO_ID.find(c.ID) > -1]
+                    attrs = [[a.TYPE, a.TYPE_MODIFIER] for a in c.ATTRIBUTES]
+                    opsj = [dict(params=[[pa["type"], pa["modifier"]] for pa in o.PARAMETERS], ret=[o.RETURN_TYPE, o.RETURN_TYPE_MODIFIER]) for o in c.OPERATIONS]
+                    comps, ptrs_ = [], []
+                    for a in cd.associations.values():
+                        ty = a.TYPE.lower()
+                        if "composition" in ty and a.CLASS_FROM_ID == c.ID:
+                            comps.append(a.CLASS_TO)
+                        if "association" in ty:
+                            if a.CLASS_FROM_ID == c.ID:
+                                ptrs_.append(a.CLASS_TO)
+                            elif a.CLASS_TO_ID == c.ID:
+                                ptrs_.append(a.CLASS_FROM)
+                        if "aggregation" in ty and a.CLASS_FROM_ID == c.ID:
+                            ptrs_.append(a.CLASS_TO)
+                    alltypes = set(bases) | {x[0] for x in attrs} | {x[0] for o in opsj for x in o["params"] + [o["ret"]]} | set(comps) | set(ptrs_)
+                    allmods = {x[1] for x in attrs} | {x[1] for o in opsj for x in o["params"] + [o["ret"]]}
+                    treqs.append(dict(cmd="umltypes", bases=bases, attrs=attrs, ops=opsj, compositions=comps, pointers=ptrs_,
+                                      prims=sorted(t for t in alltypes if V.IsTypePrimitive(t)), ptrs=sorted(m for m in allmods if V.IsTypePointerOrRef(m)),
+                                      enums=sorted(t for t in alltypes if c.IsEnumerationOfDiagram(t))))
+                    tpend.append((dict(info, cls=c.NAME), types, real_fwd))
                     oc.stat("include_blocks_compared")
                     if any("::" in t and t.split("::")[-1] in "".join(t.split("::")[:-1]) for t in types):
                         oc.stat("types_whose_class_name_occurs_in_their_namespace")
@@ -175,6 +205,15 @@ def run(tier):
                         oc.violations.append(dict(what="generated C++ rejected by g++ beyond the recorded ILayer operations: %s" % bad[:2], **info))
             shutil_rm(out)
             os.remove(proj)
+    for (info, real_nf, real_fwd), a in zip(tpend, lean_batch(treqs)):
+        oc.traces_validated += 1
+        if "error" in a:
+            oc.corr_failures.append(dict(what="Lean driver error (umltypes): " + a["error"][:200], **info))
+        elif sorted(set(a["notfwd"])) != real_nf or sorted(set(a["fwd"])) != real_fwd:
+            oc.corr_failures.append(dict(what="needed / forward-declarable types differ from Model/UmlTypes: real %r / %r, model %r / %r"
+                                         % (real_nf, real_fwd, sorted(set(a["notfwd"])), sorted(set(a["fwd"]))), **info))
+        else:
+            oc.stat("type_sets_compared")
     for (info, real), a in zip(ipend, lean_batch(ireqs)):
         oc.traces_validated += 1
         if "error" in a:
